@@ -10,50 +10,50 @@ package common
 // ----- int.go -----
 
 //@ func ModInt
-//@   props C06 C15 C13
+//@   props C06 C15 C13 C10 C11 C12 C14
 //@   ensures result == mod
 
 //@ func (*modInt).i
-//@   props C06
+//@   props C06 C10 C11 C12 C13 C14 C15
 //@   ensures result == mi
 
 //@ func (*modInt).Add
-//@   props C06 C15 C13
+//@   props C06 C15 C13 C10 C11 C12 C14
 //@   requires mi != nil && x != nil && y != nil
 //@   requires [modulus-nonzero] val(mi) != 0
 //@   ensures result != nil && fresh(result) && val(result) == (val(x) + val(y)) % val(mi)
 //@   ensures 0 <= val(result) && (val(mi) > 0 ==> val(result) < val(mi))
 
 //@ func (*modInt).Sub
-//@   props C06 C15 C13
+//@   props C06 C15 C13 C10 C11 C12 C14
 //@   requires mi != nil && x != nil && y != nil
 //@   requires [modulus-nonzero] val(mi) != 0
 //@   ensures result != nil && fresh(result) && val(result) == (val(x) - val(y)) % val(mi)
 //@   ensures 0 <= val(result) && (val(mi) > 0 ==> val(result) < val(mi))
 
 //@ func (*modInt).Mul
-//@   props C06 C15 C13
+//@   props C06 C15 C13 C10 C11 C12 C14
 //@   requires mi != nil && x != nil && y != nil
 //@   requires [modulus-nonzero] val(mi) != 0
 //@   ensures result != nil && fresh(result) && val(result) == (val(x) * val(y)) % val(mi)
 //@   ensures 0 <= val(result) && (val(mi) > 0 ==> val(result) < val(mi))
 
 //@ func (*modInt).Div
-//@   props C06
+//@   props C06 C10 C11 C12 C13 C14 C15
 //@   requires mi != nil && x != nil && y != nil
 //@   requires [modulus-nonzero] val(mi) != 0
 //@   requires [divisor-nonzero] val(y) != 0
 //@   ensures result != nil && fresh(result) && val(result) == (val(x) / val(y)) % val(mi)
 
 //@ func (*modInt).Exp
-//@   props C06 C11 C13
+//@   props C06 C11 C13 C10 C12 C14 C15
 //@   requires mi != nil && x != nil && y != nil
 //@   ensures (val(mi) != 0 && val(y) < 0 && gcd(val(x), val(mi)) != 1) ==> result == nil
 //@   ensures !(val(mi) != 0 && val(y) < 0 && gcd(val(x), val(mi)) != 1) ==> (result != nil && fresh(result))
 //@   ensures (val(mi) > 0 && result != nil) ==> (val(result) == powmod(val(x), val(y), val(mi)) && 0 <= val(result) && val(result) < val(mi))
 
 //@ func (*modInt).ModInverse
-//@   props C06 C15
+//@   props C06 C15 C10 C11 C12 C13 C14
 //@   requires mi != nil && g != nil
 //@   requires [modulus-nonzero] val(mi) != 0 || val(g) >= 0
 //@   ensures gcd(val(g), val(mi)) != 1 ==> result == nil
@@ -61,15 +61,16 @@ package common
 //@   ensures gcd(val(g), val(mi)) == 1 && val(mi) > 1 ==> (val(result) == invmod(val(g), val(mi)) && 0 < val(result) && val(result) < val(mi))
 
 //@ func IsInInterval
-//@   props C06 C11 C14
+//@   props C06 C11 C14 C10 C13
 //@   requires b != nil && bound != nil
 //@   ensures result <==> (0 <= val(b) && val(b) < val(bound))
 
 //@ func AppendBigIntToBytesSlice
-//@   props C06 C12
+//@   props C06 C12 C10 C08
 //@   requires appended != nil
 //@   ensures fresh(result) && !isnil(result)
 //@   ensures bytes(result) == cat(bytes(commonBytes), be(val(appended)))
+//@   ensures len(result) == len(commonBytes) + blen(be(val(appended)))
 
 // ----- hash.go -----
 // The digest input is pinned to the framing spec functions framei / frameb of
@@ -79,7 +80,7 @@ package common
 
 //@ func SHA512_256i
 //@   deadpoints 2
-//@   props C16 C06 C12 C10
+//@   props C16 C06 C12 C10 C11 C14
 //@   requires [non-nil-inputs] forall k in 0..len(in) :: in[k] != nil
 //@   requires [input-count] len(in) <= 8192
 //@   ensures [C16.empty] len(in) == 0 ==> result == nil
@@ -97,7 +98,7 @@ package common
 
 //@ func SHA512_256
 //@   deadpoints 2
-//@   props C16 C06 C12
+//@   props C16 C06 C12 C10 C11 C14
 //@   requires [input-count] len(in) <= 8192
 //@   ensures [C16.empty] len(in) == 0 ==> isnil(result)
 //@   ensures [C16.framing] len(in) > 0 ==> (!isnil(result) && fresh(result) && bytes(result) == old(hashB(in)) && len(result) == 32)
@@ -111,7 +112,7 @@ package common
 
 //@ func SHA512_256i_TAGGED
 //@   deadpoints 2
-//@   props C16 C06 C12 C10
+//@   props C16 C06 C12 C10 C11 C14
 //@   requires [input-count] len(in) <= 8192
 //@   ensures [C16.empty] len(in) == 0 ==> result == nil
 //@   ensures [C16.tagged-framing] len(in) > 0 ==> (result != nil && fresh(result) && val(result) == old(hashT(tag, in)))
@@ -127,14 +128,14 @@ package common
 
 //@ func SHA512_256iOne
 //@   deadpoints 2
-//@   props C16 C06
+//@   props C16 C06 C10 C11 C12 C14
 //@   ensures in == nil ==> result == nil
 //@   ensures in != nil ==> (result != nil && fresh(result) && val(result) == beint(hashfn(15, be(old(val(in))))))
 
 // ----- hash_utils.go -----
 
 //@ func RejectionSample
-//@   props C06 C10 C12
+//@   props C06 C10 C12 C11
 //@   requires q != nil && eHash != nil && q != eHash
 //@   requires [modulus-nonzero] val(q) != 0
 //@   modifies val(eHash)
@@ -146,14 +147,14 @@ package common
 //@ func MustGetRandomInt
 //@   sampler
 //@   deadpoints 2
-//@   props C06 C19
+//@   props C06 C19 C10 C14 C15
 //@   requires rand != nil
 //@   requires [bits-in-range] 0 < bits && bits <= 5000
 //@   ensures result != nil && fresh(result) && 0 <= val(result) && val(result) < pow2(bits) - 1
 
 //@ func GetRandomPositiveInt
 //@   sampler
-//@   props C06 C19
+//@   props C06 C19 C10 C14 C15
 //@   requires rand != nil
 //@   requires [bound-size] (lessThan != nil && val(lessThan) > 0) ==> bitlen(val(lessThan)) <= 5000
 //@   ensures [C19.nil-iff-bad-bound] result == nil <==> (lessThan == nil || val(lessThan) <= 0)
@@ -163,31 +164,31 @@ package common
 
 //@ func GetRandomPositiveRelativelyPrimeInt
 //@   sampler
-//@   props C06 C19
+//@   props C06 C19 C10 C14 C15
 //@   requires rand != nil
 //@   requires [bound-size] (n != nil && val(n) > 0) ==> bitlen(val(n)) <= 5000
 //@   ensures [C19.nil-iff-bad-bound] result == nil <==> (n == nil || val(n) <= 0)
 //@   ensures [C19.unit-in-range] result != nil ==> (fresh(result) && 1 <= val(result) && val(result) < val(n) && gcd(val(result), val(n)) == 1)
 
 //@ func IsNumberInMultiplicativeGroup
-//@   props C06 C19 C11
+//@   props C06 C19 C11 C14 C12 C10 C13
 //@   ensures result <==> (n != nil && v != nil && val(n) > 0 && 1 <= val(v) && val(v) < val(n) && gcd(val(v), val(n)) == 1)
 
 //@ func GetRandomGeneratorOfTheQuadraticResidue
-//@   props C06 C19
+//@   props C06 C19 C10 C14 C15
 //@   requires rand != nil && n != nil
 //@   requires [modulus-positive] val(n) > 0 && bitlen(val(n)) <= 5000
 //@   ensures result != nil && fresh(result) && 0 <= val(result) && val(result) < val(n)
 //@   ensures [C19.is-square] exists f :: (1 <= f && f < val(n) && gcd(f, val(n)) == 1 && val(result) == (f * f) % val(n))
 
 //@ func GetRandomQuadraticNonResidue
-//@   props C06 C19
+//@   props C06 C19 C10 C14 C15
 //@   requires rand != nil && n != nil
 //@   requires [odd-modulus] val(n) > 0 && val(n) % 2 == 1 && bitlen(val(n)) <= 5000
 //@   ensures result != nil && fresh(result) && 0 <= val(result) && val(result) < val(n) && jacobi(val(result), val(n)) == 0 - 1
 
 //@ func GetRandomBytes
-//@   props C06
+//@   props C06 C10 C14 C15 C19
 //@   requires rand != nil
 //@   requires [length-bound] length <= 1073741824
 //@   ensures result1 == nil ==> len(result0) == length
@@ -195,24 +196,24 @@ package common
 // ----- slice.go -----
 
 //@ func NonEmptyBytes
-//@   props C06
+//@   props C06 C10 C12 C08
 //@   ensures result <==> len(bz) > 0
 
 //@ func NonEmptyMultiBytes
-//@   props C06 C10
+//@   props C06 C10 C12 C08
 //@   ensures result ==> (len(bzs) > 0 && (forall k in 0..len(bzs) :: len(bzs[k]) > 0))
 //@   ensures result && len(expectLen) > 0 ==> len(bzs) == expectLen[0]
 //@   loop 0 invariant forall k in 0..$iter :: len(bzs[k]) > 0
 
 //@ func BigIntsToBytes
-//@   props C06 C10
+//@   props C06 C10 C12 C08
 //@   ensures fresh(result) && len(result) == len(bigInts)
 //@   ensures forall k in 0..len(bigInts) :: (bigInts[k] != nil ==> bytes(result[k]) == be(val(bigInts[k])))
 //@   loop 0 invariant len(bzs) == len(bigInts) && fresh(bzs)
 //@   loop 0 invariant forall k in 0..$iter :: (bigInts[k] != nil ==> bytes(bzs[k]) == be(val(bigInts[k])))
 
 //@ func MultiBytesToBigInts
-//@   props C06 C10 C16
+//@   props C06 C10 C16 C12 C08
 //@   ensures fresh(result) && len(result) == len(bytes)
 //@   ensures forall k in 0..len(bytes) :: (result[k] != nil && fresh(result[k]) && val(result[k]) == beint(bytes(bytes[k])) && val(result[k]) >= 0)
 //@   loop 0 invariant len(ints) == len(bytes) && fresh(ints)
